@@ -45,7 +45,7 @@ def main():
                                    env=dict(os.environ, VERIF_REPO=dst))
                 res[p] = {0: 'missed', 1: 'CAUGHT', 2: 'inconclusive'}.get(r.returncode, f'rc{r.returncode}')
                 if r.returncode == 1:
-                    mech = [l for l in r.stdout.splitlines() if 'mechanism=' in l][:2]
+                    mech = [l for l in r.stdout.splitlines() if 'mechanism=' in l and not l.startswith('KNOWN')][:2]
                     res[p] += ' ' + '; '.join(x.strip() for x in mech)
                 elif r.returncode == 2:
                     res[p] += ' ' + ' | '.join(l[:200] for l in r.stdout.splitlines() if l.startswith('INCONCLUSIVE'))[:400]
